@@ -5,6 +5,7 @@ shape with <= 6 (combination, repetition) cells, run serially; E3: a subset of t
 optimum and all-huge scores under every SchedPool outcome; exact-arithmetic reference.
 """
 import itertools
+import random
 from fractions import Fraction as Fr
 
 from mc.engine import hbfs, par, sched
@@ -206,6 +207,121 @@ def limit_case(case):
     return tuple(map(tuple, got))
 
 
+# parameter names that are also names of variables, keyword arguments or bookkeeping keys inside the batching code
+# (`records` and `score` are reserved by the documented result format and stay out)
+ODD_NAMES = ['index', 'timestep', 'i', 'id', 'run', 'mode', 'data', 'params', 'model', 'seed', 'rep', 'processes',
+             'max_timesteps', 'repetitions', 'kwargs', 'args', 'cls', 'model_cls', 'score_func', 'parameters', 'result',
+             'results', 'best', 'key', 'value', 'name']
+
+
+class KwModel(Core.Model):
+    """Takes whatever parameters the grid declares and keeps each as an attribute of the same name (a model whose
+    integration step is called `timestep`, whose replicate number is called `index`, ...); never finishes by itself."""
+
+    def __init__(self, **kw):
+        super().__init__()
+        self.kw = dict(kw)
+        for k, v in kw.items():
+            setattr(self, k, v)
+        self.systems.add_system(Overrun('overrun', self))
+
+
+class Overrun(Core.System):
+    """The searches over KwModel use max_timesteps=3: a model still being stepped at clock 8 has been advanced past the
+    limit (and would otherwise be stepped forever: it never finishes by itself)."""
+
+    def execute(self):
+        if self.model.systems.timestep >= 8:
+            raise Violation('a model was advanced past max_timesteps=3 (clock 8 reached)', expected=3,
+                            observed=self.model.systems.timestep)
+
+
+def kw_score(model):
+    return sum((i + 1) * v for i, (k, v) in enumerate(sorted(model.kw.items()))) + 1000 * model.systems.timestep
+
+
+class Tick(Core.System):
+    def execute(self):
+        type(self.model).tally += self.model.a
+        self.model.draws.append(random.random())
+        if self.model.systems.timestep >= 2:
+            self.model.complete()
+
+
+class TallyModel(Core.Model):
+    """The constructor resets process-wide state (a class-level tally, the global generator) that the run and the score
+    then use - every repetition starts from what its own constructor set up."""
+    tally = 0
+
+    def __init__(self, a):
+        super().__init__(seed=a)
+        self.a = a
+        self.draws = []
+        TallyModel.tally = 0
+        random.seed(a)
+        self.systems.add_system(Tick('tick', self))
+
+
+def tally_score(model):
+    return TallyModel.tally * 1000 + int(sum(model.draws) * 100)
+
+
+def traits_case(case):
+    reset_library()
+    procs, oc = case['procs'], case.get('outcome')
+    if procs != 1:
+        sched.install(Batching, (tuple(tuple(w) for w in oc[0]), tuple(oc[1])) if oc else None, sched.WorkerCache())
+    try:
+        if case['what'] == 'name':
+            n = case['name']
+            params = {n: [3, 1, 2], 'a': [10, 20]}
+            best, results = Batching.grid_search(KwModel, params, kw_score, processes=procs, max_timesteps=3,
+                                                 repetitions=1, mode=ScoreMode.MIN)
+            cs = [{n: x, 'a': a} for x in (3, 1, 2) for a in (10, 20)]
+            exp = [sum((i + 1) * v for i, (k, v) in enumerate(sorted(c.items()))) + 3000 for c in cs]
+            reps = 1
+        else:
+            params = {'a': [2, 1, 3]}
+            reps = 3
+            best, results = Batching.grid_search(TallyModel, params, tally_score, processes=procs, repetitions=reps,
+                                                 mode=ScoreMode.MIN_SUM)
+            cs = [{'a': a} for a in (2, 1, 3)]
+            exp = []
+            for c in cs:
+                rnd = random.Random(c['a'])
+                exp.append(3 * c['a'] * 1000 + int(sum(rnd.random() for _ in range(3)) * 100))
+    finally:
+        if procs != 1:
+            sched.uninstall(Batching)
+    what = f'search over {params} ({case["what"]}), processes {procs}, schedule {oc}'
+    if not isinstance(results, list) or len(results) != len(cs):
+        raise Violation(f'{what}: number of results differs from the number of combinations', expected=len(cs),
+                        observed=repr(results)[:300])
+    for i, (c, res) in enumerate(zip(cs, results)):
+        if not isinstance(res, dict) or {k: v for k, v in res.items() if k not in ('records', 'score')} != c:
+            raise Violation(f'{what}: result {i} does not carry its own unmodified parameters', expected=c, observed=res)
+        if list(res['records']) != [exp[i]] * reps:
+            raise Violation(f'{what}: result {i} records differ from the scores of its own repetitions',
+                            expected=[exp[i]] * reps, observed=res['records'])
+        if res['score'] != exp[i] * (reps if case['what'] != 'name' else 1):
+            raise Violation(f'{what}: result {i} aggregate', expected=exp[i] * reps, observed=res['score'])
+    first = exp.index(min(exp))
+    if best is not results[first] and best != results[first]:
+        raise Violation(f'{what}: best is not the first minimum', expected=first, observed=best)
+    return (case['what'], case.get('name'), tuple(exp))
+
+
+def traits_cases():
+    ocs = [None] + [[list(map(list, oc[0])), list(oc[1])] for oc in list(sched.outcomes(6, 2))[:3]]
+    for n in ODD_NAMES:
+        yield {'leg': 'traits', 'what': 'name', 'name': n, 'procs': 1}
+        for oc in ocs:
+            yield {'leg': 'traits', 'what': 'name', 'name': n, 'procs': 2, 'outcome': oc}
+    yield {'leg': 'traits', 'what': 'tally', 'procs': 1}
+    for oc in sched.outcomes(3, 2):
+        yield {'leg': 'traits', 'what': 'tally', 'procs': 2, 'outcome': [list(map(list, oc[0])), list(oc[1])]}
+
+
 def limit_cases():
     for limit, life in ((3, 100), (5, 2), (4, 3)):
         yield {'leg': 'limit', 'limit': limit, 'life': life, 'procs': 1}
@@ -365,12 +481,13 @@ def chunk_fn(ctx, chunk):
     cache = sched.WorkerCache()
     serial_memo = {}
     for case in chunk:
-        if case['leg'] in ('limit', 'reused_list'):
+        if case['leg'] in ('limit', 'reused_list', 'traits'):
             ctx.traces += 1
             ctx.states += 1
             ctx.transitions += 3
             try:
-                ctx.outcome(hbfs._guard(limit_case if case['leg'] == 'limit' else reused_list_case, case))
+                ctx.outcome(hbfs._guard({'limit': limit_case, 'reused_list': reused_list_case,
+                                         'traits': traits_case}[case['leg']], case))
             except Violation as v:
                 ctx.report(case, v)
             continue
@@ -409,7 +526,7 @@ def run(ctx):
     ser = list(serial_cases(ctx.tier))
     sc = list(sched_cases())
     pr = list(pool_reuse_cases())
-    lim = list(limit_cases()) + [{'leg': 'reused_list', 'procs': 1}]
+    lim = list(limit_cases()) + [{'leg': 'reused_list', 'procs': 1}] + list(traits_cases())
     allc = lim + ser + sc
     size = max(1, len(allc) // (ctx.procs * 4))
     par.pmap(ctx, chunk_fn, [allc[i:i + size] for i in range(0, len(allc), size)], procs=ctx.procs)
@@ -424,6 +541,9 @@ def run(ctx):
 
 
 def replay(case):
+    if case['leg'] == 'traits':
+        hbfs._guard(traits_case, case)
+        return
     if case['leg'] == 'limit':
         hbfs._guard(limit_case, case)
         return
